@@ -50,7 +50,13 @@ var recSpace = ev.New("C18", "config-space",
 	Require("accepted-exercised", "refused-one-violation", "viol:key-length", "viol:nat-timeout", "viol:mtu", "viol:dangling", "viol:duplicate", "viol:range", "viol:missing-resolver",
 		"legacy-form", "sibling:legacy-flip", "sibling:migrate", "sibling:omit", "sibling:empty", "sibling:default",
 		"probe:tcp-tunnel", "probe:udp-tunnel", "probe:reject", "udp-nontarget-reply-delivered", "chain", "domain-target",
-		"probe-silent:target-speaks-first", "probe-silent:late-payload", "probe:scan-close", "probe:scan-byte", "reject-outcome:fallback-echo", "half-enabled-client", "half-enabled-client-routed")
+		"probe-silent:target-speaks-first", "probe-silent:late-payload", "probe:scan-close", "probe:scan-byte", "reject-outcome:fallback-echo", "half-enabled-client", "half-enabled-client-routed",
+		// round 6: TLS listeners and clients under traffic, the authentication invariants, certificate-store violations
+		"exercised:tls-server", "exercised:tls-client", "tls-probe:client-cert=true", "tls-probe:client-cert=false", "tls-nocert-refused", "auth-refused-then-accepted", "viol:cert-file",
+		// legacy-only worlds under the full script, SOCKS5 UDP ASSOCIATE, bursts against the smallest batch sizes
+		"exercised:legacy-only-world", "probe:assoc-socks5", "burst:relayBatchSize=1", "burst:relayBatchSize=2", "burst:relayBatchSize=other",
+		// the logger built like the command builds it, at the levels that switch the debug blocks on and off
+		"exercised:log=debug", "exercised:log=info", "exercised:log=warn")
 
 func TestConfigSpace(t *testing.T) {
 	startPct := envInt("VERIF_C18_START_PCT", 40)
@@ -93,7 +99,14 @@ func TestConfigSpace(t *testing.T) {
 			m.apply()
 			applied = append(applied, m.kind+"/"+m.label)
 		}
+		logLevel := []string{"debug", "info", "warn"}[uniform(rt, "logLevel", 3)]
+		logPreset := []string{"console", "console-nocolor", "console-notime", "console-nocolor-notime"}[rapid.IntRange(0, 3).Draw(rt, "logPreset")]
 		wantStart := rapid.IntRange(0, 99).Draw(rt, "start") < startPct
+		needTLS := false
+		for _, s := range w.servers {
+			needTLS = needTLS || s.tlsOn()
+		}
+		wantStart = wantStart || w.legacyOnly || needTLS // the rare classes always get traffic
 		sibStart := rapid.IntRange(0, 3).Draw(rt, "siblingStart") == 0
 		seed := rapid.Uint64().Draw(rt, "payloadSeed")
 
@@ -135,6 +148,14 @@ func TestConfigSpace(t *testing.T) {
 		if w.clientsMode != 0 {
 			labels = append(labels, "clients-omitted-or-empty")
 		}
+		worldLabels := append(w.tlsLabels(), "log="+logLevel)
+		if w.legacyOnly {
+			worldLabels = append(worldLabels, "legacy-only-world")
+		}
+		if w.certs != nil {
+			worldLabels = append(worldLabels, "cert-store")
+		}
+		labels = append(labels, worldLabels...)
 		for _, c := range w.clients {
 			if c.tcp != c.udp && len(applied) == 0 {
 				labels = append(labels, "half-enabled-client")
@@ -169,7 +190,7 @@ func TestConfigSpace(t *testing.T) {
 		}
 		key := w.classKey() + "|" + strings.Join(applied, ",")
 
-		primary := loadText(cfgText, w.files, w.nports, false)
+		primary := loadText(cfgText, w.files, w.nports, false, logLevel)
 		defer primary.close()
 
 		fail := func(sig, format string, a ...any) {
@@ -257,7 +278,7 @@ func TestConfigSpace(t *testing.T) {
 			if sb.text == cfgText && !sb.migrate {
 				continue
 			}
-			l := loadText(sb.text, w.files, w.nports, sb.migrate)
+			l := loadText(sb.text, w.files, w.nports, sb.migrate, logLevel)
 			labels = append(labels, "sibling:"+sb.name)
 			if l.err != nil {
 				l.close()
@@ -314,6 +335,7 @@ func TestConfigSpace(t *testing.T) {
 					plans = append(plans, w.plan("all-omitted", w.emit(int(mOmit), false), seed))
 				}
 				for _, p := range plans {
+					p.LogLevel, p.LogPreset = logLevel, logPreset
 					ex, ls := runAndJudge(rt, recSpace, p, &knownReject)
 					labels = append(labels, ls...)
 					exercised = exercised || ex
@@ -325,6 +347,13 @@ func TestConfigSpace(t *testing.T) {
 		}
 		if exercised {
 			labels = append(labels, "accepted-exercised")
+			seen := map[string]bool{}
+			for _, l := range worldLabels {
+				if !seen[l] {
+					labels = append(labels, "exercised:"+l)
+					seen[l] = true
+				}
+			}
 		}
 		recSpace.Case(key, exercised, labels...)
 		if exercised {
@@ -371,6 +400,10 @@ func runAndJudge(rt fataler, rec *ev.Recorder, p *Plan, knownReject *bool) (exer
 		rt.Fatalf("SIG=%s the process died while traffic flowed through an accepted configuration (plan %s, journal %s)\n%s\nconfig:\n%s",
 			o.Sig, p.Name, o.Journal, crashExcerpt(o.Output), p.Config)
 	}
+	for _, pr := range o.Result.Probes {
+		rec.Label("ms:"+pr.Kind, pr.Millis) // where the time of the smoke script goes
+	}
+	rec.Label("ms:stop", o.Result.StopMs)
 	ks, tolerate := known(sigReject)
 	v, ex, ls := evaluate(p, o.Result, tolerate)
 	if v != "" {
